@@ -2,7 +2,7 @@
   Props/C20.lean — PROPERTY C20: the Atlas private key leaves the process only as a digest response.
 
   Two parts.
-  (1) `Facts_priv` (Props/SrcFacts.lean): kernel-decided over the uses of the identifiers
+  (1) `Facts_priv` (Props/Facts/Priv.lean): kernel-decided over the uses of the identifiers
       `privateKey` / `atlasPrivateKey` REGENERATED from atlas.go and main.go with go/ast: parameter,
       declaration / flag binding, copy, emptiness test, pass-through to the three Atlas functions,
       `digest.Transport{Password: …}` — and nothing else (no format argument, header value, URL
@@ -14,7 +14,7 @@
       same digest responses give identical artefacts (`C20_ni`), and when the server never sends a
       challenge no key-dependent byte exists at all (`C20_nochallenge`).
 -/
-import Anonymongo.Props.SrcFacts
+import Anonymongo.Props.Facts.Priv
 namespace Anonymongo.Atlas20
 
 /-- one HTTP request as it goes on the wire -/
